@@ -14,6 +14,7 @@ pub mod c08;
 pub mod c09;
 pub mod c10;
 pub mod c10_handover;
+pub mod c10_cluster;
 pub mod c10_softstop;
 pub mod c11;
 pub mod c12;
